@@ -14,6 +14,7 @@ import (
 	"github.com/cloudwego/hertz/pkg/common/config"
 	"github.com/cloudwego/hertz/pkg/common/tracer/stats"
 	"github.com/cloudwego/hertz/pkg/network"
+	"github.com/cloudwego/hertz/pkg/network/standard"
 	"github.com/cloudwego/hertz/pkg/route"
 
 	"github.com/cloudwego/hertz/pkg/app/server"
@@ -27,7 +28,7 @@ import (
 func main() {
 	mon.Main(&mon.Spec{
 		ID: "C19",
-		Rule: "each case = one connection history of 0..6 requests (keep-alive, close, pipelined) with a seeded outcome per request {ok, handler panic caught by the recovery middleware, malformed header, body too large, peer closes mid-body, write error, hijack} and a seeded end of connection {peer EOF, idle time-out, reset}, on engines with IdleTimeout 0 (return-to-poller: the rig re-enters Serve while input remains) and > 0, trace levels base and detailed, under seeded segmentation; a recording tracer's Start/Finish calls and the stage events are judged by an online checker of the (Start Finish)* grammar and the stage order; " +
+		Rule: "each case = one connection history of 0..6 requests (keep-alive, close, pipelined) with a seeded outcome per request {ok, handler panic caught by the recovery middleware, malformed header, body too large, peer closes mid-body, write error, hijack} and a seeded end of connection {peer EOF, idle time-out, reset}, on engines with IdleTimeout 0 (return-to-poller: the rig re-enters Serve while input remains) and > 0, trace levels base and detailed, under seeded segmentation; POST bodies of 6..9600 bytes are compared with what Request.Body() gives inside Finish (poison-on-free hook H3 on); a recording tracer's Start/Finish calls and the stage events are judged by an online checker of the (Start Finish)* grammar and the stage order; " +
 			"distinct = hash of (idle mode, level, outcome sequence, end action, segmentation policy); non-trivial = at least 2 requests or a non-ok outcome",
 		Assumptions: []string{
 			"loopback family: real servers on the standard and netpoll transports, the client closes the connection after the responses; the tracer log is read once it has been stable for 30 ms",
@@ -53,6 +54,7 @@ type ev struct {
 	kind     string // S or F
 	path     string
 	fullPath string
+	body     string // what Request.Body() gives inside Finish
 	stages   string
 	problem  string
 }
@@ -101,7 +103,11 @@ func (r *rec) Finish(ctx context.Context, c *app.RequestContext) {
 		problem = "HTTPStart/HTTPFinish missing"
 	}
 	r.mu.Lock()
-	r.log = append(r.log, ev{kind: "F", remote: remoteOf(c), path: string(c.Request.Header.RequestURI()), fullPath: c.FullPath(), stages: sb.String(), problem: problem})
+	body := ""
+	if !c.Request.IsBodyStream() {
+		body = string(c.Request.Body())
+	}
+	r.log = append(r.log, ev{kind: "F", remote: remoteOf(c), path: string(c.Request.Header.RequestURI()), fullPath: c.FullPath(), body: body, stages: sb.String(), problem: problem})
 	r.mu.Unlock()
 }
 
@@ -133,7 +139,7 @@ func build(cf ecfg) *engine {
 		} else {
 			o.IdleTimeout = time.Minute
 		}
-		o.MaxRequestBodySize = 1000
+		o.MaxRequestBodySize = 10000
 		if cf.detailed {
 			o.TraceLevel = stats.LevelDetailed
 		} else {
@@ -184,7 +190,7 @@ func getLB(w *mon.W, np bool) *lbServer {
 		h.Use(recovery.Recovery())
 		h.Any("/ok/:a/:b", handler)
 		h.NoRoute(handler)
-	}, server.WithTracer(tr), server.WithTraceLevel(stats.LevelDetailed), server.WithMaxRequestBodySize(1000))
+	}, server.WithTracer(tr), server.WithTraceLevel(stats.LevelDetailed), server.WithMaxRequestBodySize(10000))
 	if err != nil {
 		w.Note("loopback server did not start: " + err.Error())
 		lbServers[np] = nil
@@ -194,7 +200,16 @@ func getLB(w *mon.W, np bool) *lbServer {
 	return lbServers[np]
 }
 
+func trunc(s string, n int) string {
+	if len(s) > n {
+		return s[:n] + "…"
+	}
+	return s
+}
+
 func work(w *mon.W) {
+	// poison-on-free (hook H3): released connection buffers are overwritten with 0xDD
+	standard.VerifPoisonEnabled = true
 	engines := map[ecfg]*engine{}
 	get := func(cf ecfg) *engine {
 		if e, ok := engines[cf]; ok {
@@ -238,6 +253,7 @@ func oneConn(w *mon.W, c *mon.Case, get func(ecfg) *engine, loopback bool) {
 	var wbuf bytes.Buffer
 	var handled []string // paths that must appear in a Finish ("REJECT:" prefix: bracketed but path optional)
 	var outcomes []string
+	bodies := map[string]string{} // path -> body sent with it
 	stop := false
 	writeErr := false
 	closedByRequest := false
@@ -261,7 +277,7 @@ func oneConn(w *mon.W, c *mon.Case, get func(ecfg) *engine, loopback bool) {
 			continue
 		case 3:
 			oc = "too-large"
-			fmt.Fprintf(&wbuf, "POST %s HTTP/1.1\r\nHost: x\r\nContent-Length: 5000\r\n\r\n%s", path, strings.Repeat("b", 5000))
+			fmt.Fprintf(&wbuf, "POST %s HTTP/1.1\r\nHost: x\r\nContent-Length: 12000\r\n\r\n%s", path, strings.Repeat("b", 12000))
 			handled = append(handled, "REJECT:"+path)
 			outcomes = append(outcomes, oc)
 			stop = true
@@ -291,7 +307,10 @@ func oneConn(w *mon.W, c *mon.Case, get func(ecfg) *engine, loopback bool) {
 			continue
 		case 7:
 			oc = "post-body"
-			fmt.Fprintf(&wbuf, "POST %s HTTP/1.1\r\nHost: x\r\nContent-Length: 7\r\n\r\nabcdefg", path)
+			// (bodies within one buffer block and spanning two)
+			pb := strings.Repeat(fmt.Sprintf("<%d.%d>", c.I%1000, i), 1+r.Int(0, 400, 1200))
+			bodies[path] = pb
+			fmt.Fprintf(&wbuf, "POST %s HTTP/1.1\r\nHost: x\r\nContent-Length: %d\r\n\r\n%s", path, len(pb), pb)
 			handled = append(handled, path)
 			outcomes = append(outcomes, oc)
 			continue
@@ -438,6 +457,16 @@ func oneConn(w *mon.W, c *mon.Case, get func(ecfg) *engine, loopback bool) {
 			if x.fullPath != wantFP {
 				c.Violate("finish-data", "the Finish of request %q reports FullPath %q, want %q; trace: %s", x.path, x.fullPath, wantFP, render())
 				return
+			}
+			// … and so is the body: what Request.Body() gives inside Finish is the body this
+			// request was sent with (the buffers of the connection are poisoned when they
+			// are released, hook H3, so a view into released memory shows as 0xDD bytes)
+			if want, ok := bodies[x.path]; ok && reached[x.path] && x.body != want {
+				c.Violate("finish-body", "the Finish of request %q: Request.Body() is %d bytes starting %q, the request was sent with %d bytes starting %q", x.path, len(x.body), trunc(x.body, 24), len(want), trunc(want, 24))
+				// (the other clauses are still judged on this history)
+			}
+			if _, ok := bodies[x.path]; ok {
+				w.Count("finish_bodies_compared", 1)
 			}
 			w.Count("pairs_checked", 1)
 		}
